@@ -156,4 +156,7 @@ def bag (sts : List (Name × ScalarCfg)) : List String :=
 def localName (bagIds : List String) (schemaName : Name) : String :=
   if bagIds.contains schemaName then "__tmp_" ++ schemaName else schemaName
 
+/-- does the identifier start with the renaming prefix `__tmp_`? -/
+def hasTmpPrefix (s : String) : Bool := "__tmp_".toList.isPrefixOf s.toList
+
 end NitroVerif.DeclCfg
